@@ -247,8 +247,14 @@ def git_head(path):
         return ""
 
 
+def out_root():
+    """Where evidence and replay files go: /verif, unless PV_OUT redirects them (sensitivity
+    self-tests against a scratch copy of the repository must not overwrite the real evidence)."""
+    return Path(os.environ["PV_OUT"]) if os.environ.get("PV_OUT") else ROOT
+
+
 def write_replay(prop_id, failure, seed, tier):
-    d = ROOT / "replays" / prop_id
+    d = out_root() / "replays" / prop_id
     d.mkdir(parents=True, exist_ok=True)
     body = {
         "property": prop_id,
@@ -262,7 +268,7 @@ def write_replay(prop_id, failure, seed, tier):
     sha = hashlib.sha1(json.dumps([failure["key"], failure["case"]], sort_keys=True, default=repr).encode()).hexdigest()[:12]
     p = d / f"{sha}.json"
     p.write_text(json.dumps(body, indent=1, sort_keys=True, default=repr))
-    return p.relative_to(ROOT)
+    return p.relative_to(ROOT) if p.is_relative_to(ROOT) else p
 
 
 def run_property(prop_id: str, tier: str, seed: int, replay_path=None, nproc=None) -> int:
@@ -457,8 +463,8 @@ def run_property(prop_id: str, tier: str, seed: int, replay_path=None, nproc=Non
         "technique": getattr(mod, "TECHNIQUE", ""),
         "repo_head": git_head(os.environ.get("PV_REPO", "/repo")),
     }
-    (ROOT / "evidence").mkdir(exist_ok=True)
-    (ROOT / "evidence" / f"{prop_id}.json").write_text(
+    (out_root() / "evidence").mkdir(parents=True, exist_ok=True)
+    (out_root() / "evidence" / f"{prop_id}.json").write_text(
         json.dumps(evidence, indent=1, sort_keys=True, default=repr) + "\n"
     )
 
